@@ -174,7 +174,13 @@ func (e *Engine) val(st *State, fr *Frame, v ssa.Value) Value {
 	if !ok {
 		panic(abortSignal{fmt.Sprintf("unknown ssa value %s in %s", v.Name(), fr.fn)})
 	}
-	return fr.env[i]
+	r := fr.env[i]
+	if bv, ok := r.(BV); ok && len(st.eqc) > 0 && !bv.T.IsConst() {
+		if c, ok := st.eqc[bv.T.ID]; ok {
+			return BV{c}
+		}
+	}
+	return r
 }
 
 func (e *Engine) set(fr *Frame, v ssa.Value, val Value) {
@@ -368,6 +374,10 @@ func (e *Engine) RunHarness(fn *ssa.Function, base *State) *HarnessResult {
 	for len(e.work) > 0 {
 		s := e.work[len(e.work)-1]
 		e.work = e.work[:len(e.work)-1]
+		if time.Since(lastProgress).Seconds() > 10 && e.cfg.Verbose >= 1 {
+			lastProgress = time.Now()
+			fmt.Fprintf(os.Stderr, "  ... %s: paths=%d queue=%d solver=%.1fs q=%d/%d/%d wall=%.0fs\n", e.res.Name, e.res.Paths, len(e.work), e.solver.Time.Seconds(), e.solver.NUnsat, e.solver.NSat, e.solver.NUnknown, time.Since(e.start).Seconds())
+		}
 		if e.res.Paths >= e.cfg.MaxPaths || time.Since(e.start).Seconds() > e.cfg.MaxSeconds {
 			e.res.Aborts = append(e.res.Aborts, fmt.Sprintf("budget exhausted: paths=%d, %d states left", e.res.Paths, len(e.work)+1))
 			break
@@ -475,6 +485,7 @@ func (e *Engine) fork(st *State, c *Term) bool {
 		return true
 	case r1 != Unsat:
 		st.decided[c.ID] = true
+		st.noteEq(c)
 		return true
 	case r2 != Unsat:
 		st.decided[c.ID] = false
@@ -694,7 +705,7 @@ func condKey(c *Term) int {
 	return c.ID
 }
 
-type unwindFail struct{ pos string }
+var lastProgress = time.Now()
 
 func unwindSignalFor(st *State, e *Engine) interface{} {
 	return killSignal{"UNWIND " + posOf(st, e)}
@@ -1353,6 +1364,15 @@ func (e *Engine) bytesEq(st *State, a, b Slice) *Term {
 		}
 		return And(cs...)
 	}
+	// symbolic length with a small known upper bound: quantifier-free expansion
+	if ub, ok := ubound(a.Len); ok && ub <= 96 {
+		cs := []*Term{lenEq}
+		for i := uint64(0); i < ub; i++ {
+			ii := U64(i)
+			cs = append(cs, Implies(BVUlt(ii, a.Len), Eq(Select(aa, BVAdd(a.Off, ii)), Select(ba, BVAdd(b.Off, ii)))))
+		}
+		return And(cs...)
+	}
 	// symbolic length: fresh boolean with both polarities axiomatised
 	eq := st.fresh("beq", SBool)
 	i := BoundVar("i", SBV(64))
@@ -1364,6 +1384,72 @@ func (e *Engine) bytesEq(st *State, a, b Slice) *Term {
 	st.addPC(Implies(eq, And(lenEq, all)))
 	st.addPC(Implies(Not(eq), Or(Not(lenEq), diff)))
 	return eq
+}
+
+var varBounds = map[string]uint64{}
+var uboundMemo = map[int]int64{}
+
+// ubound returns an upper bound of a length term (unsigned), if one is syntactically evident.
+// Subtractions are assumed not to wrap: the engine only builds length terms after checking bounds.
+func ubound(t *Term) (uint64, bool) {
+	if v, ok := uboundMemo[t.ID]; ok {
+		if v < 0 {
+			return 0, false
+		}
+		return uint64(v), true
+	}
+	r, ok := ubound1(t)
+	if ok && r < 1<<40 {
+		uboundMemo[t.ID] = int64(r)
+	} else {
+		uboundMemo[t.ID] = -1
+		ok = false
+	}
+	return r, ok
+}
+
+func ubound1(t *Term) (uint64, bool) {
+	switch t.Op {
+	case "const":
+		if t.Big != nil {
+			return 0, false
+		}
+		return t.C, true
+	case "var":
+		v, ok := varBounds[t.Name]
+		return v, ok
+	case "bvadd":
+		a, ok1 := ubound(t.Args[0])
+		if t.Args[1].IsConst() && t.Args[1].S.W == 64 && t.Args[1].SVal() < 0 {
+			// x + (-k)
+			return a, ok1
+		}
+		b, ok2 := ubound(t.Args[1])
+		return a + b, ok1 && ok2
+	case "bvsub":
+		return ubound(t.Args[0])
+	case "ite":
+		a, ok1 := ubound(t.Args[1])
+		b, ok2 := ubound(t.Args[2])
+		if a < b {
+			a = b
+		}
+		return a, ok1 && ok2
+	case "zext":
+		if a, ok := ubound(t.Args[0]); ok {
+			return a, true
+		}
+		if t.Args[0].S.W <= 8 {
+			return mask(t.Args[0].S.W), true
+		}
+	case "bvand":
+		if t.Args[1].IsConst() && t.Args[1].Big == nil {
+			return t.Args[1].C, true
+		}
+	case "select":
+		return 255, true
+	}
+	return 0, false
 }
 
 // ---------- type assertions
